@@ -83,8 +83,8 @@ PROPS = {
         'coq': 'Props/C02.v',
         'families': [
             {'name': 'tree',
-             'args': {'quick': ['--corpus', 1, '--joints', 1, '--mutants', 2500, '--lexemes', 1500, '--templates', 4000, '--random', 2500],
-                      'thorough': ['--corpus', 1, '--joints', 1, '--mutants', 60000, '--lexemes', 30000, '--templates', 100000, '--random', 60000]},
+             'args': {'quick': ['--corpus', 1, '--joints', 1, '--mutants', 2500, '--lexemes', 1500, '--templates', 4000, '--random', 2500, '--unknown', 1500],
+                      'thorough': ['--corpus', 1, '--joints', 1, '--mutants', 60000, '--lexemes', 30000, '--templates', 100000, '--random', 60000, '--unknown', 60000]},
              'shards': {'quick': 16, 'thorough': 16}, 'driver_args': []},
             {'name': 'pk',
              'args': {'quick': ['--exhaustive', 2, '--long', 200, '--random', 20000], 'thorough': ['--exhaustive', 3, '--long', 5000, '--random', 300000]},
